@@ -187,8 +187,11 @@ def _task(tkey, name, tier):
     rounds = 0
     paths_total = 0
 
-    def explore_add(a, forward, inv_ids, record):
-        """explores add_element(child(a), forward, intelligent_choice=False) from all states satisfying Inv(inv_ids)"""
+    rehoming_calls = [0]
+
+    def explore_add(a, forward, inv_ids, record, ic=False):
+        """explores add_element(child(a), forward, intelligent_choice=ic) from all states satisfying Inv(inv_ids); with ic=True the
+        re-homing helper _check_choices_intelligently is replaced by the assumed contract 'finds nothing (returns None)'"""
         def harness():
             e, c = fresh_container()
             st = M.mkstate(mods, c)
@@ -199,18 +202,29 @@ def _task(tkey, name, tier):
             el = lib.child(a) if a in lib.table else lib.child(alpha[0])
             if a not in lib.table:
                 pass
+            real_helper = cc.XMLChildContainer._check_choices_intelligently
+            if ic:
+                def helper_stub(self, xml_element=None):
+                    rehoming_calls[0] += 1
+                    return None
+                cc.XMLChildContainer._check_choices_intelligently = helper_stub
             try:
-                leaf = c.add_element(el, forward, False)
+                leaf = c.add_element(el, forward, ic)
                 out = ('ok', leaf)
             except Exception as ex:
                 out = ('exc', type(ex).__name__)
+            finally:
+                cc.XMLChildContainer._check_choices_intelligently = real_helper
             record(st, c, el, out)
             return out[0]
         return E.explore(harness, maxpaths=4000, timeout=budget, query_timeout_ms=qt)
 
     # ---- family A: contract of add_element from every state (no invariant)
     for a in alpha + ['@foreign']:
-        for fwd in (None, 0, 1):
+        for fwd in (None, 0, 1, 'ic'):
+            ic_mode = (fwd == 'ic')
+            if ic_mode:
+                fwd = None
             res = {'ok': True, 'detail': None, 'exc_types': set(), 'npaths': 0, 'post_ok': True, 'c19': None}
             real_a = a if a != '@foreign' else next(n for n in sorted(lib.table) if n not in alpha)
 
@@ -245,10 +259,10 @@ def _task(tkey, name, tier):
                     res['exc_types'].add(out[1])
                     if out[1] not in documented and res['c19'] is None:
                         res['c19'] = (out[1], _model_state(st))
-            results = explore_add(real_a, fwd, None, rec)
+            results = explore_add(real_a, fwd, None, rec, ic=ic_mode)
             paths_total += len(results)
             uns = [r.detail for r in results if r.status == 'unsupported']
-            oid = f'M/add-contract/{tkey}/{a}/fwd={fwd}'
+            oid = f'M/add-contract/{tkey}/{a}/fwd={fwd}' + ('/ic=True' if ic_mode else '')
             if not uns and res['npaths'] == 0:
                 uns = ['no feasible path reached the postcondition (vacuous)']
             if uns:
@@ -264,6 +278,30 @@ def _task(tkey, name, tier):
             obs.append(dict(oid=f'M/add-contract/{tkey}/budget', props=['C06', 'C10', 'C19'], status='undecided', detail='type budget exceeded'))
             break
 
+    # ---- lemma L: the truthiness contract by which get_leaves(func) is replaced in the proved layer, checked on the REAL get_leaves of
+    #      this type: truthy  <=>  some leaf has func(leaf) not None.  All subsets of leaves for <= 10 leaves, else all subsets of size <= 2
+    #      and their complements (bounded).
+    import itertools as _it
+    orig_gl = getattr(cc.XMLChildContainer.get_leaves, '_dv_orig', cc.XMLChildContainer.get_leaves)
+    e0, c0 = fresh_container()
+    leaves0 = [n for n in c0._raw_traverse() if M.kind(n, mods) == 'E']
+    subsets = []
+    if len(leaves0) <= 10:
+        for k in range(len(leaves0) + 1):
+            subsets.extend(_it.combinations(range(len(leaves0)), k))
+        lemma_level = 'finite-complete'
+    else:
+        base = [()] + [(i,) for i in range(len(leaves0))] + list(_it.combinations(range(len(leaves0)), 2))
+        subsets = base + [tuple(j for j in range(len(leaves0)) if j not in b) for b in base]
+        lemma_level = 'bounded'
+    bad_l = None
+    for sub in subsets:
+        chosen = {id(leaves0[i]) for i in sub}
+        got = orig_gl(c0, lambda leaf: 'X' + leaf.content.name if id(leaf) in chosen else None)
+        if bool(got) != bool(sub):
+            bad_l = f'get_leaves truthiness {bool(got)} for marked leaves {[leaves0[i].content.name for i in sub]}'
+            break
+    obs.append(dict(oid=f'M/lemma-get-leaves/{tkey}', props=['C01', 'C02'], status='discharged' if bad_l is None else 'violated', detail=bad_l, paths=len(subsets), level=lemma_level))
     # ---- family R: contract of XMLElement.remove(child) on a checked element, from every flag state:
     #      exactly the child leaves its leaf (and the insertion list), every other leaf list is unchanged, the child is detached
     for li in range(len(alpha)):
